@@ -140,7 +140,7 @@ def input_shape(spec, n):
     return (n,) + tuple(inp.get('lead', [])) + (inp['in'],)
 
 
-STYLES = ['gauss', 'gauss', 'ints', 'lowrank', 'deadcol', 'small', 'big']
+STYLES = ['gauss', 'gauss', 'ints', 'lowrank', 'deadcol', 'small', 'big', 'permuted']
 
 
 def make_input(spec, n, seed, style='gauss', dtype=torch.float32):
@@ -157,7 +157,11 @@ def make_input(spec, n, seed, style='gauss', dtype=torch.float32):
         x = x * 0.1
     elif style == 'big':
         x = x * 3.0
-    return x.to(dtype)
+    x = x.to(dtype)
+    if style == 'permuted':
+        # same values as 'gauss' in a dense non-contiguous layout (channels_last images, transposed storage otherwise)
+        x = x.contiguous(memory_format=torch.channels_last) if x.dim() == 4 else x.transpose(-1, -2).contiguous().transpose(-1, -2)
+    return x
 
 
 def loss_of(y, seed, n, style='mix'):
@@ -190,6 +194,11 @@ class Recorder:
         mods = dict(model.named_modules())
         for n in names:
             mods[n].register_forward_hook(self._fwd(n))
+            # inert hooks of the two kinds K-FAC registers: torch routes the output of a module with a full backward hook
+            # through an identity autograd function that may re-stride size-1 dimensions (a following convolution can then
+            # pick another kernel, 1 ulp apart); that plumbing is torch's, so the twin shares it
+            mods[n].register_forward_pre_hook(lambda m, i: None)
+            mods[n].register_full_backward_hook(lambda m, gi, go: None)
 
     def _fwd(self, name):
         def hook(module, inp, out):
